@@ -50,7 +50,33 @@ def body(chk, db, cfgname):
         ctx = Ctx(f, db)
         at = guard_facts(f, ctx)
         Ik = ("param", f.params[0]["d"], f.params[0]["n"])
-        comp = {("field", q, Ik): i for i, q in enumerate(IDX)}
+        # the index quadruple the element is created for (argument of createElement) and its four components
+        ce = [j for j, n in f.walk(f.body) if n["k"] == "call" and (n.get("cname") or "").endswith("::createElement")]
+        if len(ce) != 1:
+            raise AnalysisBroken("%s: expected one createElement call" % f.qn)
+
+        def fold(k):
+            # Index<i> of IndexCombination4(x1,x2,x3,x4) is x<i> (member-wise constructor, checked below)
+            from pv.expr import key_subst as _ks
+
+            def f_(x):
+                if x[0] == "field" and x[1] in IDX and x[2][0] == "ctor" and x[2][1] == "Pomerol::IndexCombination4" and len(x[2]) == 6:
+                    return x[2][2 + IDX.index(x[1])]
+                return None
+            return _ks(k, f_)
+
+        def comps(k):
+            k = fold(k)
+            if k[0] == "ctor" and k[1] == "Pomerol::IndexCombination4" and len(k) == 6:
+                return [fold(x) for x in k[2:]]
+            if k[0] in ("param", "var", "field", "op", "mcall"):
+                return [("field", q, k) for q in IDX]
+            return None
+        Ek = fold(ctx.key(f.nodes[ce[0]]["args"][0]))
+        ecomps = comps(Ek)
+        if ecomps is None or len(set(ecomps)) != 4 and False:
+            raise AnalysisBroken("%s: cannot resolve the index quadruple passed to createElement" % f.qn)
+        comp = {a: i for i, a in enumerate(ecomps)}
         ins = [j for j, n in f.walk(f.body) if n["k"] == "call" and n["ck"] == "method" and strip_targs(n.get("cname") or "") in ("std::map::insert", "std::map::emplace")]
         nident = 0
         ident_pos = None
@@ -67,15 +93,16 @@ def body(chk, db, cfgname):
             # pair(K, ElementWithPermFreq(pElement, permutations4[k]))
             if not (ak and ak[0] in ("ctor", "call") and len(ak) >= 4):
                 raise AnalysisBroken("%s: unrecognised insertion into ElementsMap: %s" % (f.qn, f.s(j)[:100]))
-            K, E = ak[2], ak[3]
+            K, E = fold(ak[2]), ak[3]
             if not (E[0] == "ctor" and E[1] == "Pomerol::ElementWithPermFreq" and E[3][0] == "op" and E[3][1] == "[]" and E[3][2] == ("global", "Pomerol::permutations4") and E[3][3][0] == "lit"):
                 raise AnalysisBroken("%s: alias element is not ElementWithPermFreq(p, permutations4[const]): %s" % (f.qn, f.s(j)[:120]))
             tk = E[3][3][1]
             elem = E[2]
-            if K == Ik:
+            kc = comps(K)
+            if K == Ek:
                 sigma = (0, 1, 2, 3)
-            elif K[0] == "ctor" and K[1] == "Pomerol::IndexCombination4" and len(K) == 6 and all(a in comp for a in K[2:]):
-                sigma = tuple(comp[a] for a in K[2:])
+            elif kc is not None and all(a in comp for a in kc):
+                sigma = tuple(comp[a] for a in kc)
             else:
                 raise AnalysisBroken("%s: key of the inserted entry is neither Indices nor IndexCombination4 of its components: %s" % (f.qn, f.s(j)[:120]))
             site = "%s:alias%s" % (strip_targs(f.name), "".join(str(x + 1) for x in sigma))
@@ -97,6 +124,7 @@ def body(chk, db, cfgname):
                 nident += 1
                 ident_pos = j
                 ident_elem = elem
+                ident_key = K
             # note: whether the alias insertion is guarded by "exchanged indices differ" / "!isInContainer" is NOT checked:
             # std::map::insert never overwrites, so those guards are redundant and dropping them preserves behaviour.
 
@@ -106,11 +134,46 @@ def body(chk, db, cfgname):
         if nident != 1:
             r3.bad(site, f.loc(), "set() inserts %d identity entries into ElementsMap (expected exactly one)" % nident, cfgname)
         else:
-            good = [j for j, ak in nte_ins if ak and len(ak) >= 4 and ak[2] == Ik and ak[3] == ident_elem]
+            good = [j for j, ak in nte_ins if ak and len(ak) >= 4 and ak[2] == ident_key and ak[3] == ident_elem]
             if good and f.cfg.pos1(good[0]) and (f.cfg.dominates(f.cfg.pos1(ident_pos), f.cfg.pos1(good[0])) or f.cfg.dominates(f.cfg.pos1(good[0]), f.cfg.pos1(ident_pos))):
                 r3.ok(site, f.loc(ident_pos), "the new element is inserted under Indices into ElementsMap (identity permutation) and into NonTrivialElements on the same path", cfgname)
             else:
                 r3.bad(site, f.loc(ident_pos), "the element stored under Indices in ElementsMap is not also registered in NonTrivialElements (bulk split computation would skip it)", cfgname)
+
+        # ------------------------------------------------------------------ the entry returned by set(X) is the entry keyed X
+        rr = chk.rule("C13-R6", "set(Indices) and operator()(Indices) hand out the entry stored under the requested quadruple", "F1 dominance", 1)
+        site = "%s:returned-entry" % strip_targs(f.name)
+        rets = [j for j, n in f.walk(f.body) if n["k"] == "return" and n.get("sub") is not None]
+        verdict = None
+        for j in rets:
+            rk = ctx.key(f.nodes[j]["sub"])
+            # iter->second with iter = ElementsMap.insert(pair(K, ...)).first   |   ElementsMap.find(K)->second  |  ElementsMap[K] / at(K)
+            src = None
+            if rk[0] == "field" and rk[1] == "std::pair::second" and rk[2][0] == "op" and rk[2][1] in ("->", "*"):
+                it = rk[2][2]
+                if it[0] == "field" and it[1] == "std::pair::first" and it[2][0] == "mcall" and it[2][1] in ("std::map::insert", "std::map::emplace") and it[2][2] == EMAP:
+                    src = it[2][3][2] if len(it[2][3]) >= 3 else None
+                elif it[0] == "mcall" and it[1] == "std::map::find" and it[2] == EMAP:
+                    src = it[3]
+            elif rk[0] == "mcall" and rk[1] == "std::map::at" and rk[2] == EMAP:
+                src = rk[3]
+            elif rk[0] == "op" and rk[1] == "[]" and rk[2] == EMAP:
+                src = rk[3]
+            if src is None:
+                raise AnalysisBroken("%s: returned expression %s is not an entry of ElementsMap obtained by insert/find/at" % (f.qn, f.s(f.nodes[j]["sub"])[:80]))
+            sc_ = comps(src)
+            want = [("field", q, Ik) for q in IDX]
+            if src == Ik or sc_ == want:
+                verdict = verdict or ("ok", j, None)
+            else:
+                verdict = ("bad", j, "set(%s) returns the entry stored under %s, which differs from the requested quadruple (e.g. a canonically re-ordered representative): the first on-demand lookup of such a quadruple gets the "
+                                     "wrong element (sign and frequency permutation of another index order), later lookups hit the alias — the value depends on the request history" % (Ik[2], f.s(f.nodes[j]["sub"])[:40]))
+        if verdict is None:
+            raise AnalysisBroken("%s: no return of an entry" % f.qn)
+        if verdict[0] == "ok":
+            rr.ok(site, f.loc(verdict[1]), "returns the entry inserted / found under the parameter itself", cfgname)
+        else:
+            rr.bad(site, f.loc(verdict[1]), verdict[2], cfgname)
 
     # ------------------------------------------------------------------ R3 (all mutators): clear together
     r3 = chk.rule("C13-R3", "ElementsMap and NonTrivialElements are maintained together by every mutator", "F4 paired state", 2)
@@ -141,7 +204,23 @@ def body(chk, db, cfgname):
                     px, pj = f.cfg.pos1(x), f.cfg.pos1(j)
                     if px and pj and (f.cfg.dominates(px, pj) or post_dominates(f, px, pj)):
                         covered = True
-                if covered:
+                if covered and short == "erase":
+                    # removing ONE stored element: every ElementsMap entry that refers to it (identity + up to three aliases) must go too
+                    n_em = len([1 for x, s2 in ops.get(EMAP[1], []) if s2 == "erase"])
+                    scans = False
+                    for jj, nn in f.walk(f.body):
+                        if nn["k"] == "for":
+                            from pv.loops import loop_shape as _ls
+                            shp_ = _ls(f, ctx, jj)
+                            if shp_["kind"] in ("iter", "other") and any(x == "pElement" for x in [m.get("n") for _, m in f.walk(nn["body"]) if m["k"] == "member"]) and \
+                                    any(ctx.key(m["obj"]) == EMAP for _, m in f.walk(nn["body"]) if m["k"] == "call" and m["ck"] == "method" and strip_targs(m.get("cname") or "").endswith("::erase") and m.get("obj") is not None):
+                                scans = True
+                    if n_em >= 4 or scans:
+                        r3.ok(site, f.loc(j), "the element is removed together with all ElementsMap entries that refer to it", cfgname)
+                    else:
+                        r3.bad(site, f.loc(j), "a stored element is erased from NonTrivialElements / ElementsMap by key, but its alias entries (exchanged-index keys pointing to the same element) stay in ElementsMap: "
+                               "they remain listed and prepared, are never computed by the bulk computation over NonTrivialElements, and shadow later requests for those quadruples", cfgname)
+                elif covered:
                     r3.ok(site, f.loc(j), "%s() of both maps on the same path" % short, cfgname)
                 else:
                     r3.bad(site, f.loc(j), "%s.%s() is not accompanied by %s.%s() on the same path: the two maps disagree afterwards (stale elements stay listed in %s; a second fill followed by a bulk computation "
